@@ -534,16 +534,68 @@ fn run(op: &Value) -> Value {
                     Err(conjure_error::Error::internal_safe("no endpoint matches the request"))
                 }
             }
+            // the same handler behind the ASYNC server flavour ("async_server": true): AsyncGsvc endpoints driven by block_on
+            use conjure_http::server::{AsyncEndpoint, AsyncResponseBody, AsyncService, EndpointMetadata};
+            use verif_service::gen::p::{AsyncGsvc, AsyncGsvcEndpoints};
+            struct AH(H);
+            impl AsyncGsvc for AH {
+                async fn g1(&self, auth_: BearerToken, path_arg: i32, query_arg: String, header_arg: i32) -> Result<(), conjure_error::Error> { Gsvc::g1(&self.0, auth_, path_arg, query_arg, header_arg) }
+                async fn g2(&self, auth_: BearerToken, p: String, opt_arg: Option<i32>, lst_arg: Vec<i32>, bar_arg: Option<String>) -> Result<(), conjure_error::Error> { Gsvc::g2(&self.0, auth_, p, opt_arg, lst_arg, bar_arg) }
+                async fn g3(&self, body_arg: String) -> Result<String, conjure_error::Error> { Gsvc::g3(&self.0, body_arg) }
+                async fn g4(&self, set_arg: std::collections::BTreeSet<String>, opt_body: Option<String>) -> Result<Option<String>, conjure_error::Error> { Gsvc::g4(&self.0, set_arg, opt_body) }
+                async fn g5(&self, tok: BearerToken, qt: BearerToken) -> Result<(), conjure_error::Error> { Gsvc::g5(&self.0, tok, qt) }
+            }
+            type AItems = futures::stream::Iter<std::vec::IntoIter<Result<bytes::Bytes, conjure_error::Error>>>;
+            struct ALoop(Vec<conjure_http::server::BoxAsyncEndpoint<'static, AItems, Vec<u8>>>);
+            impl Client for ALoop {
+                type BodyWriter = Vec<u8>;
+                type ResponseBody = Items;
+                fn send(&self, req: http::Request<RequestBody<'_, Vec<u8>>>) -> Result<http::Response<Items>, conjure_error::Error> {
+                    let (parts, body) = req.into_parts();
+                    let body = match body {
+                        RequestBody::Empty => vec![],
+                        RequestBody::Fixed(b) => vec![Ok(b)],
+                        RequestBody::Streaming(mut w) => { let mut buf = vec![]; w.write_body(&mut buf)?; vec![Ok(bytes::Bytes::from(buf))] }
+                    };
+                    let segs: Vec<&str> = parts.uri.path().split('/').skip(1).collect();
+                    for e in &self.0 {
+                        if e.method() != parts.method || e.path().len() != segs.len() { continue; }
+                        let mut pp = conjure_http::PathParams::new();
+                        let mut ok = true;
+                        for (t, s) in e.path().iter().zip(&segs) {
+                            match t {
+                                PathSegment::Literal(l) => ok &= l == s,
+                                PathSegment::Parameter { name, .. } => pp.insert(AsRef::<str>::as_ref(name), *s),
+                            }
+                        }
+                        if !ok { continue; }
+                        let mut sreq = http::Request::new(futures::stream::iter(body));
+                        *sreq.method_mut() = parts.method.clone();
+                        *sreq.uri_mut() = parts.uri.clone();
+                        *sreq.headers_mut() = parts.headers.clone();
+                        sreq.extensions_mut().insert(pp);
+                        let mut ext = http::Extensions::new();
+                        let resp = futures::executor::block_on(e.handle(sreq, &mut ext))?;
+                        let (rparts, rbody) = resp.into_parts();
+                        let items = match rbody {
+                            AsyncResponseBody::Empty => vec![],
+                            AsyncResponseBody::Fixed(b) => vec![Ok(b)],
+                            AsyncResponseBody::Streaming(_) => return Err(conjure_error::Error::internal_safe("streaming response not supported by the replay router")),
+                        };
+                        return Ok(http::Response::from_parts(rparts, items.into_iter()));
+                    }
+                    Err(conjure_error::Error::internal_safe("no endpoint matches the request"))
+                }
+            }
             let calls = Arc::new(Mutex::new(vec![]));
             let ret = String::from_utf8(hex(op["ret"].as_str().unwrap_or(""))).unwrap_or_default();
             let ret_opt = op["ret_opt"].as_str().map(|h| String::from_utf8(hex(h)).unwrap_or_default());
             let svc = GsvcEndpoints::new(H(calls.clone(), ret, ret_opt));
             let rt = Arc::new(ConjureRuntime::new());
-            let client = <GsvcClient<Loop> as ClientService<Loop>>::new(Loop(Service::endpoints(&svc, &rt)));
             let s = |k: &str| String::from_utf8(hex(op[k].as_str().unwrap_or(""))).unwrap_or_default();
             let tok = |k: &str| BearerToken::new(op[k].as_str().unwrap_or("t")).unwrap();
             let i = |k: &str| op[k].as_i64().unwrap_or(0) as i32;
-            let r = match op["endpoint"].as_str().unwrap() {
+            macro_rules! drive { ($client:expr) => {{ let client = $client; match op["endpoint"].as_str().unwrap() {
                 "g1" => client.g1(&tok("token"), i("path_arg"), &s("query_arg"), i("header_arg")).map(|_| Value::Null),
                 "g2" => {
                     let bar = if op["bar_arg"].is_null() { None } else { Some(s("bar_arg")) };
@@ -558,6 +610,14 @@ fn run(op: &Value) -> Value {
                     client.g4(&set, ob.as_deref()).map(|v| v.map(|x| Value::String(tohex(x.as_bytes()))).unwrap_or(Value::Null))
                 }
                 _ => return json!({"error": "endpoint"}),
+            } }}; }
+            let r = if op["async_server"].as_bool().unwrap_or(false) {
+                let ret_opt2 = op["ret_opt"].as_str().map(|h| String::from_utf8(hex(h)).unwrap_or_default());
+                let ret2 = String::from_utf8(hex(op["ret"].as_str().unwrap_or(""))).unwrap_or_default();
+                let asvc = AsyncGsvcEndpoints::new(AH(H(calls.clone(), ret2, ret_opt2)));
+                drive!(<GsvcClient<ALoop> as ClientService<ALoop>>::new(ALoop(AsyncService::endpoints(&asvc, &rt))))
+            } else {
+                drive!(<GsvcClient<Loop> as ClientService<Loop>>::new(Loop(Service::endpoints(&svc, &rt))))
             };
             let c = calls.lock().unwrap().clone();
             match r {
